@@ -26,8 +26,10 @@ import (
 	"github.com/robinbraemer/event"
 
 	"go.minekube.com/gate/pkg/edition/java/config"
+	"go.minekube.com/gate/pkg/edition/java/lite"
 	"go.minekube.com/gate/pkg/edition/java/profile"
 	"go.minekube.com/gate/pkg/edition/java/proto/packet"
+	"go.minekube.com/gate/pkg/edition/java/proto/state"
 	"go.minekube.com/gate/pkg/edition/java/proto/version"
 	"go.minekube.com/gate/pkg/edition/java/proxy/phase"
 	"go.minekube.com/gate/pkg/edition/java/proxy/zzverif/vrt"
@@ -46,6 +48,10 @@ type hsCase struct {
 	IP      int `json:"ip"`
 	Backend int `json:"backend"`
 	Secret  int `json:"secret"`
+	ID      int `json:"id,omitempty"` // index into c19IDs
+	// VH: 0 = the virtual host is a well-formed host:port address (a client address containing ':' is bracketed);
+	// 1 = the net.Addr the REAL handshakeSessionHandler stores for the client's Handshake{ServerAddress, Port}
+	VH int `json:"vh,omitempty"`
 }
 
 var (
@@ -63,6 +69,9 @@ var (
 		"192.0.2.10",
 		"2001:db8::1",
 		"play.example.org///198.51.100.1:1234///1700000000",
+		"play.example.org///198.51.100.1:1234///1700000000\x00FML\x00",  // Forge client behind TCPShield (lite.TCPShieldRealIP format)
+		"play.example.org///198.51.100.1:1234///1700000000\x00FML2\x00", // modern Forge behind TCPShield
+		"Play.Example.org.///198.51.100.1:1234///1700000000\x00FORGE",
 		"bücher.example",
 		"a",
 		"\x00FML\x00",
@@ -77,11 +86,13 @@ var (
 		{{Name: "textures", Value: "ewogICJ0aW1lc3RhbXAiIDogMTcwMH0=", Signature: "c2lnbmF0dXJl"}},
 		{{Name: "te\"xt\\ures", Value: "vä✓lue <&> \u2028"}, {Name: "second", Value: "", Signature: "sig\"2"}},
 	}
-	c19IPs      = []net.Addr{&net.TCPAddr{IP: net.IPv4(203, 0, 113, 7), Port: 50123}, &net.TCPAddr{IP: net.ParseIP("2001:db8::8a2e:370:7334"), Port: 50124}}
-	c19IPHosts  = []string{"203.0.113.7", "2001:db8::8a2e:370:7334"}
+	c19IPs      = []net.Addr{&net.TCPAddr{IP: net.IPv4(203, 0, 113, 7), Port: 50123}, &net.TCPAddr{IP: net.ParseIP("2001:db8::8a2e:370:7334"), Port: 50124}, netutil.NewAddr("198.51.100.9:40000", "tcp"), netutil.NewAddr("[2001:db8::77]:40001", "tcp")}
+	c19IPHosts  = []string{"203.0.113.7", "2001:db8::8a2e:370:7334", "198.51.100.9", "2001:db8::77"}
 	c19Backends = []string{"127.0.0.1:25566", "backend.internal:25565", "[2001:db8::2]:25565"}
 	c19Secrets  = []string{"tok3n", "s\"e\\c✓ret"}
 	c19ID       = uuid.UUID{0x12, 0x34, 0x56, 0x78, 0x9a, 0xbc, 0x4d, 0xef, 0x80, 0x12, 0x34, 0x56, 0x78, 0x9a, 0xbc, 0xde}
+	// ids whose undashed form has leading zeros / zero groups (an integer-style formatter would drop them)
+	c19IDs = []uuid.UUID{c19ID, {0x00, 0x00, 0x0a, 0xbc, 0x00, 0x00, 0x30, 0x01, 0x80, 0x00, 0x00, 0x00, 0x00, 0x00, 0x00, 0x07}, {0xff, 0xff, 0xff, 0xff, 0xff, 0xff, 0x4f, 0xff, 0xbf, 0xff, 0xff, 0xff, 0xff, 0xff, 0xff, 0xff}}
 	errC19Hook  = errors.New("backend addresser failed")
 )
 
@@ -132,6 +143,32 @@ func ctName(ct phase.ConnectionType) string {
 	return "other"
 }
 
+// refUndashed: 32 lower-case hex digits, every byte two digits.
+func refUndashed(id uuid.UUID) string {
+	const hexd = "0123456789abcdef"
+	b := make([]byte, 0, 32)
+	for _, x := range id {
+		b = append(b, hexd[x>>4], hexd[x&15])
+	}
+	return string(b)
+}
+
+// refRouteHost is the host a downstream proxy routes on, written from the statement: the first NUL part without a
+// TCPShield "///ip///timestamp" suffix and without leading/trailing dots.
+func refRouteHost(addr string) string {
+	h := firstPart(addr)
+	if i := strings.Index(h, "///"); i >= 0 {
+		h = h[:i]
+	}
+	for len(h) > 0 && h[0] == '.' {
+		h = h[1:]
+	}
+	for len(h) > 0 && h[len(h)-1] == '.' {
+		h = h[:len(h)-1]
+	}
+	return h
+}
+
 func firstPart(s string) string { return strings.SplitN(s, "\x00", 2)[0] }
 
 func (c hsCase) String() string {
@@ -170,9 +207,10 @@ func check(r *vrt.R, c hsCase) {
 	r.Class("conn-type:" + ctName(ct))
 	// the virtual host as a well-formed host:port address (IPv6 literals bracketed)
 	vh := clientAddr + ":25565"
-	if strings.Contains(clientAddr, ":") {
+	if strings.Contains(clientAddr, ":") && c.VH == 0 {
 		vh = net.JoinHostPort(clientAddr, "25565")
 	}
+
 	cfg := &config.Config{Forwarding: config.Forwarding{Mode: c19Modes[c.Mode], BungeeGuardSecret: c19Secrets[c.Secret], VelocitySecret: "v"}}
 	p := &Proxy{cfg: cfg, event: event.Nop}
 	deps := &sessionHandlerDeps{proxy: p, configProvider: p, eventMgr: event.Nop}
@@ -182,14 +220,45 @@ func check(r *vrt.R, c hsCase) {
 	if c19Props[c.Props] != nil {
 		props = append(make([]profile.Property, 0, len(c19Props[c.Props])), c19Props[c.Props]...)
 	}
+	var vhAddr net.Addr = netutil.NewAddr(vh, "tcp")
+	if c.VH == 1 {
+		// run the real handshake handler and take the virtual host it hands to the login phase
+		hc := newG8Conn(pv.Protocol, c19IPs[c.IP])
+		hc.st = state.Handshake
+		var lh *initialLoginSessionHandler
+		if pn, v := vrt.Catch(func() {
+			newHandshakeSessionHandler(hc, deps).HandlePacket(&proto.PacketContext{Direction: proto.ServerBound, Protocol: pv.Protocol, Packet: hs, PacketID: 0})
+			lh, _ = hc.handler.(*initialLoginSessionHandler)
+		}); pn {
+			r.Violation("handshake-handler/panic", fmt.Sprintf("%s: %v", c, v), c)
+			return
+		}
+		if lh == nil {
+			r.Class("handshake-refused-before-login(e.g. velocity mode below 1.13)")
+			return
+		}
+		vhAddr = lh.inbound.VirtualHost()
+		r.Class("virtual-host-from-the-real-handshake-handler(client address contains ':')")
+	}
 	player := &connectedPlayer{
 		MinecraftConn:      client,
 		sessionHandlerDeps: deps,
 		log:                logr.Discard(),
-		profile:            &profile.GameProfile{ID: c19ID, Name: "Steve", Properties: props},
-		virtualHost:        netutil.NewAddr(vh, "tcp"),
+		profile:            &profile.GameProfile{ID: c19IDs[c.ID], Name: "Steve", Properties: props},
+		virtualHost:        vhAddr,
 	}
-	backendAddr := netutil.NewAddr(c19Backends[c.Backend], "tcp")
+	// two backend connections of the SAME player in a row (server switch / fallback): the second
+	// address must be as well-formed as the first and name the second backend
+	for round := 0; round < 2; round++ {
+		if !oneRound(r, c, round, player, p, ct, clientAddr, pv) {
+			return
+		}
+	}
+}
+
+func oneRound(r *vrt.R, c hsCase, round int, player *connectedPlayer, p *Proxy, ct phase.ConnectionType, clientAddr string, pv *proto.Version) bool {
+	beIdx := (c.Backend + round) % len(c19Backends)
+	backendAddr := netutil.NewAddr(c19Backends[beIdx], "tcp")
 	hook := c19Hooks[c.Hook]
 	var gotServer, gotBackend string
 	var info ServerInfo = NewServerInfo("backend", backendAddr)
@@ -209,7 +278,7 @@ func check(r *vrt.R, c hsCase) {
 	var err error
 	if pn, v := vrt.Catch(func() { _, err = sc.startHandshake(func() {}, resultChan) }); pn {
 		r.Violation("startHandshake/panic", fmt.Sprintf("%s: %v", c, v), c)
-		return
+		return false
 	}
 	forwarding := (c19Modes[c.Mode] == config.LegacyForwardingMode || c19Modes[c.Mode] == config.BungeeGuardForwardingMode) && !serverHook
 	wantErr := !forwarding && strings.Contains(hook, "backend:error")
@@ -218,11 +287,11 @@ func check(r *vrt.R, c hsCase) {
 		if !errors.Is(err, errC19Hook) || len(backend.written) != 0 {
 			r.Violation("hook-error/not-propagated", fmt.Sprintf("%s: err=%v, packets written=%d", c, err, len(backend.written)), c)
 		}
-		return
+		return false
 	}
 	if err != nil {
 		r.Violation("startHandshake/error", fmt.Sprintf("%s: %v", c, err), c)
-		return
+		return false
 	}
 	var sent *packet.Handshake
 	for _, w := range backend.written {
@@ -235,7 +304,7 @@ func check(r *vrt.R, c hsCase) {
 	}
 	if sent == nil {
 		r.Violation("startHandshake/no-handshake", fmt.Sprintf("%s: wrote %v", c, backend.written), c)
-		return
+		return false
 	}
 	addr := sent.ServerAddress
 
@@ -243,33 +312,48 @@ func check(r *vrt.R, c hsCase) {
 		r.Class("host-first")
 		if clientAddr == "" {
 			r.Class("empty-client-host(not asserted: statement silent)")
-			return
+			return false
 		}
 		want := firstPart(clientAddr)
-		if got := firstPart(addr); got != want {
+		if got := firstPart(addr); got != want && c.VH == 1 && got == want+":25565" {
+			r.Violation("host-first/port-glued-to-host-containing-colon", fmt.Sprintf("%s: the handshake handler stores the virtual host %q; the backend handshake address %q starts with %q, the player's host is %q", c, player.virtualHost.String(), addr, got, want), c)
+			return false
+		} else if got != want {
 			r.Violation("host-first/"+ctName(ct), fmt.Sprintf("%s: backend handshake address %q starts with %q, the player's host is %q", c, addr, got, want), c)
-			return
+			return false
+		}
+		// "so a downstream proxy routing on it sees the same host": what the real host extraction of a downstream
+		// Gate (lite.ClearVirtualHost) makes of the address the backend receives
+		if got, wantHost := lite.ClearVirtualHost(addr), refRouteHost(clientAddr); got != wantHost {
+			r.Violation("host-first/downstream-route-host", fmt.Sprintf("%s (connection #%d): a downstream proxy extracts host %q from %q, the player's host is %q", c, round+1, got, addr, wantHost), c)
+			return false
+		}
+		if strings.Contains(clientAddr, "///") && strings.Contains(clientAddr, "\x00") {
+			r.Class("host:tcpshield+forge-marker")
 		}
 		if strings.Contains(clientAddr, "\x00") || hook != "none" {
 			r.Nontrivial(1)
 		}
-		return
+		return true
 	}
 
 	// legacy / BungeeGuard forwarding, parsed like a BungeeCord backend
 	r.Class("forwarding:" + string(c19Modes[c.Mode]))
+	if round == 1 {
+		r.Class("forwarding:second-connection-of-the-same-player")
+	}
 	parts := javaSplitNUL(addr)
 	if len(parts) != 4 {
 		r.Violation("forwarding/part-count", fmt.Sprintf("%s: address %q splits into %d parts, a BungeeCord backend needs host, ip, uuid, properties", c, addr, len(parts)), c)
-		return
+		return false
 	}
-	if parts[0] != c19Backends[c.Backend] && parts[0] != netutil.HostStr(c19Backends[c.Backend]) {
-		r.Violation("forwarding/backend-address", fmt.Sprintf("%s: first part %q is not the backend address", c, parts[0]), c)
+	if parts[0] != c19Backends[beIdx] && parts[0] != netutil.HostStr(c19Backends[beIdx]) {
+		r.Violation("forwarding/backend-address", fmt.Sprintf("%s (connection #%d to %s): first part %q is not the backend address", c, round+1, c19Backends[beIdx], parts[0]), c)
 	}
 	if ip, e := netip.ParseAddr(parts[1]); e != nil || ip.String() != c19IPHosts[c.IP] {
 		r.Violation("forwarding/player-ip", fmt.Sprintf("%s: second part %q is not the player's IP", c, parts[1]), c)
 	}
-	if len(parts[2]) != 32 || strings.ToLower(parts[2]) != strings.ReplaceAll(c19ID.String(), "-", "") {
+	if len(parts[2]) != 32 || strings.ToLower(parts[2]) != refUndashed(c19IDs[c.ID]) {
 		r.Violation("forwarding/uuid", fmt.Sprintf("%s: third part %q is not the undashed UUID", c, parts[2]), c)
 	} else if _, e := strconv.ParseUint(parts[2][:16], 16, 64); e != nil {
 		r.Violation("forwarding/uuid", fmt.Sprintf("%s: third part %q is not hex", c, parts[2]), c)
@@ -278,7 +362,7 @@ func check(r *vrt.R, c hsCase) {
 	dec := json.NewDecoder(strings.NewReader(parts[3]))
 	if e := dec.Decode(&list); e != nil {
 		r.Violation("forwarding/properties-json", fmt.Sprintf("%s: fourth part %q is not a JSON property array: %v", c, parts[3], e), c)
-		return
+		return false
 	}
 	if dec.More() {
 		r.Violation("forwarding/properties-json", fmt.Sprintf("%s: trailing data after the JSON property array in %q", c, parts[3]), c)
@@ -306,7 +390,7 @@ func check(r *vrt.R, c hsCase) {
 		}
 	}
 	if !ok {
-		r.Violation("forwarding/properties", fmt.Sprintf("%s: property list %q parsed as %+v; want the player's %+v%s", c, parts[3], list, want, map[bool]string{true: " + bungeeguard-token", false: ""}[c19Modes[c.Mode] == config.BungeeGuardForwardingMode]), c)
+		r.Violation("forwarding/properties", fmt.Sprintf("%s (connection #%d): property list %q parsed as %+v; want the player's %+v%s", c, round+1, parts[3], list, want, map[bool]string{true: " + bungeeguard-token", false: ""}[c19Modes[c.Mode] == config.BungeeGuardForwardingMode]), c)
 	}
 	for _, pr := range list {
 		if pr.Name == "bungeeguard-token" && c19Modes[c.Mode] != config.BungeeGuardForwardingMode {
@@ -318,6 +402,7 @@ func check(r *vrt.R, c hsCase) {
 		r.Violation("forwarding/profile-mutated", fmt.Sprintf("%s: the player's profile now has %d properties", c, len(player.profile.Properties)), c)
 	}
 	r.Nontrivial(1)
+	return true
 }
 
 func TestVerif(t *testing.T) {
@@ -351,10 +436,21 @@ func TestVerif(t *testing.T) {
 											if se > 0 && c19Modes[mi] != config.BungeeGuardForwardingMode {
 												continue
 											}
-											if r.Quick() && (pr+ip+be+se) > 0 && !(pr > 0 && ip+be+se == 0) && !(ip > 0 && pr+be+se == 0) && !(be > 0 && pr+ip+se == 0) && !(se > 0 && pr+ip+be == 0) {
-												continue // quick: <=1 deviation among props/ip/backend/secret
+											for id := range c19IDs {
+												nz := 0
+												for _, v := range []int{pr, ip, be, se, id} {
+													if v > 0 {
+														nz++
+													}
+												}
+												if r.Quick() && nz > 1 {
+													continue // quick: <=1 deviation among props/ip/backend/secret/uuid
+												}
+												check(r, hsCase{Host: hi, Proto: pi, Type: ty, Mode: mi, Hook: ki, Props: pr, IP: ip, Backend: be, Secret: se, ID: id})
+												if nz == 0 && strings.Contains(c19Hosts[hi], ":") {
+													check(r, hsCase{Host: hi, Proto: pi, Type: ty, Mode: mi, Hook: ki, VH: 1})
+												}
 											}
-											check(r, hsCase{Host: hi, Proto: pi, Type: ty, Mode: mi, Hook: ki, Props: pr, IP: ip, Backend: be, Secret: se})
 										}
 									}
 								}
@@ -364,6 +460,6 @@ func TestVerif(t *testing.T) {
 				}
 			}
 		}
-		r.Sample(map[string]any{"client_addresses": len(c19Hosts), "protocols": len(c19Protos), "modes": len(c19Modes), "hooks": c19Hooks, "property_lists": len(c19Props), "player_ips": len(c19IPs), "backend_addresses": len(c19Backends)})
+		r.Sample(map[string]any{"client_addresses": len(c19Hosts), "protocols": len(c19Protos), "modes": len(c19Modes), "hooks": c19Hooks, "property_lists": len(c19Props), "player_ips": len(c19IPs), "backend_addresses": len(c19Backends), "uuids": len(c19IDs), "backend_connections_per_player": 2})
 	})
 }
